@@ -22,12 +22,14 @@ pub const CASCADE_OFFSET: i64 = 1_000_000_000;
 pub struct SimAgent {
     v0: ValueLane<i64>,
     v1: ValueLane<i64>,
-    #[item(transient)]
-    vt: ValueLane<i64>,
+    // Field names differ from the external lane names ("vt", "mt") on purpose: the agent keeps two
+    // name tables (lifecycle/field names and external names) and both must be used consistently.
+    #[item(transient, name = "vt")]
+    vt_field: ValueLane<i64>,
     m0: MapLane<i32, i64>,
     m1: MapLane<String, i64, BTreeMap<String, i64>>,
-    #[item(transient)]
-    mt: MapLane<i32, i64>,
+    #[item(transient, name = "mt")]
+    mt_field: MapLane<i32, i64>,
     sup: SupplyLane<i64>,
     cmd: CommandLane<i64>,
     ctl: CommandLane<i32>,
@@ -133,22 +135,22 @@ fn act_handler(context: Ctx, act: Act) -> Box<dyn EventHandler<SimAgent> + Send 
         Act::SetV { lane, v } => match lane % 3 {
             0 => Box::new(context.set_value(SimAgent::V0, v)),
             1 => Box::new(context.set_value(SimAgent::V1, v)),
-            _ => Box::new(context.set_value(SimAgent::VT, v)),
+            _ => Box::new(context.set_value(SimAgent::VT_FIELD, v)),
         },
         Act::Upd { map, k, v } => match map % 3 {
             0 => Box::new(context.update(SimAgent::M0, k, v)),
             1 => Box::new(context.update(SimAgent::M1, m1_key(k), v)),
-            _ => Box::new(context.update(SimAgent::MT, k, v)),
+            _ => Box::new(context.update(SimAgent::MT_FIELD, k, v)),
         },
         Act::Rem { map, k } => match map % 3 {
             0 => Box::new(context.remove(SimAgent::M0, k)),
             1 => Box::new(context.remove(SimAgent::M1, m1_key(k))),
-            _ => Box::new(context.remove(SimAgent::MT, k)),
+            _ => Box::new(context.remove(SimAgent::MT_FIELD, k)),
         },
         Act::Clr { map } => match map % 3 {
             0 => Box::new(context.clear(SimAgent::M0)),
             1 => Box::new(context.clear(SimAgent::M1)),
-            _ => Box::new(context.clear(SimAgent::MT)),
+            _ => Box::new(context.clear(SimAgent::MT_FIELD)),
         },
         Act::Supply { v } => Box::new(context.supply(SimAgent::SUP, v)),
         Act::SetStore { v } => Box::new(context.set_value(SimAgent::VS, v)),
@@ -236,7 +238,7 @@ impl SimLifecycle {
         context.effect(move || sh.rec(Ev::Set { lane: 1, prev, v }))
     }
 
-    #[on_event(vt)]
+    #[on_event(vt_field)]
     fn vt_event(&self, context: Ctx, value: &i64) -> impl EventHandler<SimAgent> {
         let sh = self.shared.clone();
         let v = *value;
@@ -259,7 +261,7 @@ impl SimLifecycle {
             .effect(move || sh.rec(Ev::Update { map: 0, k: Key::I(key), prev, v }))
             .followed_by(
                 if cascade {
-                    Some(context.update(SimAgent::MT, key, v.wrapping_add(CASCADE_OFFSET)))
+                    Some(context.update(SimAgent::MT_FIELD, key, v.wrapping_add(CASCADE_OFFSET)))
                 } else {
                     None
                 }
@@ -320,7 +322,7 @@ impl SimLifecycle {
         context.effect(move || sh.rec(Ev::Clear { map: 1, prev: p }))
     }
 
-    #[on_update(mt)]
+    #[on_update(mt_field)]
     fn mt_update(
         &self,
         context: Ctx,
@@ -334,7 +336,7 @@ impl SimLifecycle {
         context.effect(move || sh.rec(Ev::Update { map: 2, k: Key::I(key), prev, v }))
     }
 
-    #[on_remove(mt)]
+    #[on_remove(mt_field)]
     fn mt_remove(
         &self,
         context: Ctx,
@@ -346,7 +348,7 @@ impl SimLifecycle {
         context.effect(move || sh.rec(Ev::Remove { map: 2, k: Key::I(key), prev }))
     }
 
-    #[on_clear(mt)]
+    #[on_clear(mt_field)]
     fn mt_clear(&self, context: Ctx, prev: HashMap<i32, i64>) -> impl EventHandler<SimAgent> {
         let sh = self.shared.clone();
         let mut p: Vec<(Key, i64)> = prev.into_iter().map(|(k, v)| (Key::I(k), v)).collect();
